@@ -712,6 +712,15 @@ func (c *Ctx) evalCall(env *CEnv, e *ast.CallExpr) CVal {
 			}
 			t := c.resolveTypeName(env, constant.StringVal(tn.K))
 			return CVal{V: Sc{refOf(v), "Int"}, T: t}
+		case "gconst":
+			// gconst("name", x): an immutable ghost attribute (64-bit) of the object behind x; never havocked
+			nm := c.evalExpr(env, e.Args[0])
+			if nm.K == nil || nm.K.Kind() != constant.String {
+				cerr("gconst: attribute name string expected")
+			}
+			r := refOf(c.evalExpr(env, e.Args[1]))
+			h := c.heapGet(env.state(), "ghost.const."+constant.StringVal(nm.K), BV64)
+			return CVal{V: Sc{fmt.Sprintf("(select %s %s)", h, r), BV64}, T: tInt}
 		case "enumParse":
 			// enumParse(text, v, dflt, "n1", k1, "n2", k2, ...): text equal to a listed name parses to its value, any other text to dflt
 			if len(e.Args) < 3 || len(e.Args)%2 != 1 {
@@ -808,6 +817,9 @@ func (c *Ctx) evalCall(env *CEnv, e *ast.CallExpr) CVal {
 				b = c.materialize(b, a.T)
 			}
 			return CVal{V: c.ite(cnd, a.V, b.V), T: a.T}
+		case "popcount8":
+			v := c.materialize(c.evalExpr(env, e.Args[0]), types.Typ[types.Uint8])
+			return CVal{V: Sc{popcountTerm(v.V.(Sc).T, 8), BV64}, T: tInt}
 		case "popcount64":
 			v := c.materialize(c.evalExpr(env, e.Args[0]), types.Typ[types.Uint64])
 			return CVal{V: Sc{popcountTerm(v.V.(Sc).T, 64), BV64}, T: tInt}
@@ -878,6 +890,8 @@ func (c *Ctx) resolveTypeName(env *CEnv, s string) types.Type {
 	} else {
 		if bt, ok := basicTypes[s]; ok {
 			t = bt
+		} else if strings.HasPrefix(s, "[]") {
+			t = types.NewSlice(c.resolveTypeName(env, s[2:]))
 		} else if env.pkg != nil && env.pkg.Scope().Lookup(s) != nil {
 			t = env.pkg.Scope().Lookup(s).Type()
 		} else {
@@ -1017,10 +1031,12 @@ func derefNamed(t types.Type) (*types.Named, bool) {
 	return n, ok
 }
 
+// popcountTerm: number of one bits of the w-bit term x (w <= 64... the count fits in 8 bits), as a 64-bit value.
+// The additions are done in 8-bit arithmetic (no overflow: the count is at most 64) and zero-extended once.
 func popcountTerm(x string, w int) string {
 	var parts []string
 	for i := 0; i < w; i++ {
-		parts = append(parts, fmt.Sprintf("((_ zero_extend 63) ((_ extract %d %d) %s))", i, i, x))
+		parts = append(parts, fmt.Sprintf("((_ zero_extend 7) ((_ extract %d %d) %s))", i, i, x))
 	}
-	return "(bvadd " + strings.Join(parts, " ") + ")"
+	return "((_ zero_extend 56) (bvadd " + strings.Join(parts, " ") + "))"
 }
